@@ -493,6 +493,27 @@ func build(seed uint64, profile string) *built {
 			g.optID++
 			g.put(2, &dns.OPT{Hdr: dns.RR_Header{Name: ".", Rrtype: dns.TypeA, Class: 1232, Ttl: 0x8000}, Option: g.ednsOptions()}, "x"+strconv.Itoa(g.optID))
 		}
+	case "manynames":
+		// a name-heavy message: around and far beyond maxPooledCompressionEntries (64) dictionary entries,
+		// through many distinct owners or one very deep name; small enough for the pooled buffer
+		zone := vlib.Pick(r, []string{"ex.com.", "example.com.", "b.example.org."})
+		m.Question = []dns.Question{{Name: "www." + zone, Qtype: dns.TypeA, Qclass: dns.ClassINET}}
+		m.Response = true
+		m.Compress = r.Chance(9, 10)
+		if r.Chance(1, 4) {
+			labels := vlib.Pick(r, []int{50, 60, 62, 63, 64, 66, 90, 110})
+			deep := strings.Repeat("a.", labels) + zone
+			g.put(0, &dns.CNAME{Hdr: dns.RR_Header{Name: "www." + zone, Rrtype: dns.TypeCNAME, Class: dns.ClassINET, Ttl: 5}, Target: deep}, "a")
+			g.put(0, &dns.A{Hdr: dns.RR_Header{Name: deep, Rrtype: dns.TypeA, Class: dns.ClassINET, Ttl: 5}, A: ip4(r)}, "a")
+		} else {
+			n := vlib.Pick(r, []int{40, 58, 59, 60, 61, 62, 63, 64, 65, 66, 80, 100, 120})
+			for i := 0; i < n; i++ {
+				g.put(i%3, &dns.A{Hdr: dns.RR_Header{Name: fmt.Sprintf("h%d.%s", i, zone), Rrtype: dns.TypeA, Class: dns.ClassINET, Ttl: 60}, A: net.IPv4(10, 0, byte(i>>8), byte(i)).To4()}, "a")
+			}
+		}
+		if r.Chance(1, 2) {
+			g.newOPT(2)
+		}
 	case "cdn":
 		// many records under one long owner name: far past the pooled buffer uncompressed,
 		// small once compressed (the declined-but-fits-a-datagram class), and the sizes in between
